@@ -138,6 +138,7 @@ def run_task(task):
     res["findings_present"] = dict(ctx.findings_present)
     res["findings_absent"] = sorted(ctx.findings_absent)
     res["ghost_assumes"] = sorted(ctx.ghost_assumes)
+    res["degraded"] = sorted(ctx.degraded)
     res["hashes"] = dict(ctx.source.hashes)
     res["solver"] = dict(solver.stats)
     return res
@@ -355,11 +356,14 @@ def run(prop, tier, rep):
     by_unit = {}
     seen = set()
     present, absent = {}, set()
+    degraded = {}
     for r in results:
         u = units[r["ui"]]
         by_unit.setdefault(r["ui"], []).append(r)
         if r["error"]:
             rep.errors.append("%s@%s: %s" % (u["name"], u["tag"], r["error"]))
+        for msg in r.get("degraded", []):
+            degraded.setdefault(r["ui"], set()).add(msg)
         rep.assumptions += r["assumed"]
         rep.assumptions += ["inlined (verified as part of its caller, no contract of its own): " + x for x in r["inlined"]]
         rep.assumptions += ["loop unrolled completely: " + x for x in r["unrolled"]]
@@ -413,6 +417,10 @@ def run(prop, tier, rep):
         verdicts = {o["verdict"] for o in obs}
         if confirmed:
             rep.violation(oid, payload, True)
+        elif degraded.get(obs[0]["ui"]):
+            msg = "%s fails, but %s; no replay confirmed a failure on the real code: cannot decide" % (oid, "; ".join(sorted(degraded[obs[0]["ui"]])))
+            if msg not in rep.errors:
+                rep.errors.append(msg)
         elif verdicts & {"refuted", "candidate"} and oid in rep.baseline:
             rep.violation(oid, payload, False)
         elif verdicts & {"refuted", "candidate"}:
